@@ -37,6 +37,9 @@ CLAIMED = {
                 text='Proof that the eight point-source weights of a component sum to one in every branch and are non-negative; that the cell body of _dipole_vector distributes exactly the clipped length fraction '
                      'over the four edges per component of that cell with non-negative weights and writes nothing else; that every consecutive electrode pair of a wire is discretised; that get_source_field scales the vector by '
                      'strength and -s mu0 and dispatches on the source type; rotation is the documented unit direction.'),
+    'C11': dict(ref='5 (C11)', tech=TECH, note=NOTE + ' Order contracts of Executor.map / tqdm process_map / map are assumed; determinism of a worker and the file hand-over are outside the proof (bounded concrete run only).',
+                text='Proof that process_map returns the results in input order in all four branches, that _compute, _bcompute and jvec build the i-th task from the i-th source-frequency pair and store the i-th result in that pair\'s slot '
+                     '(three pairs, so a non-involutive permutation cannot hide), and that the worker wrapper forwards exactly its own task; plus a bounded run comparing 1 vs several workers on source-dependent grids bit for bit.'),
     'C12': dict(ref='5 (C12)', tech=TECH + '; provenance (taint) tags on array storages in the control executor',
                 note=NOTE + ' Numerical callees are summarised by how they propagate provenance; one source / one frequency; in-memory execution; process_map order is C11.',
                 text='Proof that every public operation of Simulation (compute, misfit, gradient, jvec, jtvec, get_efield, clean x3, model update + clean, to_dict) re-establishes the '
